@@ -186,27 +186,38 @@ Proof.
   - destruct (IH (kstep k x) j T H) as [H1 H2]. split; [simpl; lia|]. exact H2.
 Qed.
 
-Lemma kk_terms_ok xs : forall k, kk_ok k xs ->
-  kk_terms_from n t' (fst k) (Fin (snd k)) (map (fun x => x + g) xs) = map Fin (kTs k xs).
+Lemma kk_terms_ok_z xs : forall k seen, kk_ok k xs -> (seen = true -> snd k = 0) ->
+  kk_terms_from n t' (fst k) seen (Fin (snd k)) (map (fun x => x + g) xs) = map Fin (kTs k xs).
 Proof.
-  induction xs as [|x r IH]; intros k Hok; [reflexivity|]. destruct Hok as [Hm Hok].
-  unfold kk_terms_from. cbn [map mscan map2 xcumprod map3 kTs].
+  induction xs as [|x r IH]; intros k seen Hok Hseen; [reflexivity|]. destruct Hok as [Hm Hok].
+  unfold kk_terms_from. cbn [map mscan map2 xcumprod absorb map3 kTs].
   change (mu_out (Some n) t' (fst k)) with (k_m k).
-  fold (kk_terms_from n t' (sj_step (fst k) (x + g)) (xred (xmul (Fin (snd k)) (kk_ratio (x + g) (k_m k)))) (map (fun x => x + g) r)).
-  assert (Eacc : xred (xmul (Fin (snd k)) (kk_ratio (x + g) (k_m k))) = Fin (snd (kstep k x))
+  fold (kk_terms_from n t' (sj_step (fst k) (x + g)) (seen || xis_zero (kk_ratio (x + g) (k_m k)))
+                      (xred (xmul (Fin (snd k)) (kk_ratio (x + g) (k_m k)))) (map (fun x => x + g) r)).
+  assert (Eacc : kk_ratio (x + g) (k_m k) = Fin (kk_ratio_q (x + g) (k_m k))
+                 /\ xred (xmul (Fin (snd k)) (kk_ratio (x + g) (k_m k))) = Fin (snd (kstep k x))
                  /\ kk_override (x + g) (k_m k) (Fin (snd (kstep k x))) = Fin (snd (kstep k x))).
   { unfold kstep; cbn [snd]. unfold kk_ratio, kk_ratio_q, kk_override.
     destruct Hm as [Hp|[Hz Hx]].
     - assert (E1 : Qeq_bool (k_m k) 0 = false) by (apply Qeq_bool_false; lra).
       assert (E2 : Qlt_bool (k_m k) 0 = false) by (apply Qlt_bool_false; lra).
-      rewrite E1, E2. cbn [andb orb xdiv]. rewrite E1. cbn [xmul xred]. split; reflexivity.
+      rewrite E1, E2. cbn [andb orb xdiv]. rewrite E1. cbn [xmul xred]. repeat split; reflexivity.
     - assert (E1 : Qeq_bool (k_m k) 0 = true) by (now apply Qeq_bool_iff).
       assert (E2 : Qeq_bool (x + g) 0 = true) by (now apply Qeq_bool_iff).
       assert (E3 : Qlt_bool (k_m k) 0 = false) by (apply Qlt_bool_false; lra).
       assert (E4 : Qlt_bool 0 (x + g) = false) by (apply Qlt_bool_false; lra).
-      rewrite E1, E2, E3, E4. cbn [andb orb xmul xred]. split; reflexivity. }
-  destruct Eacc as [Ea Eo]. rewrite Ea, Eo. f_equal. exact (IH (kstep k x) Hok).
+      rewrite E1, E2, E3, E4. cbn [andb orb xmul xred]. repeat split; reflexivity. }
+  destruct Eacc as [Er [Ea Eo]]. rewrite Ea. rewrite Er. cbn [xis_zero].
+  assert (Ez : seen || Qeq_bool (kk_ratio_q (x + g) (k_m k)) 0 = true -> snd (kstep k x) = 0).
+  { intro H. unfold kstep; cbn [snd]. exact (absorbed_zero seen (snd k) _ Hseen H). }
+  assert (Ee : (if seen || Qeq_bool (kk_ratio_q (x + g) (k_m k)) 0 then Fin 0 else Fin (snd (kstep k x)))
+               = Fin (snd (kstep k x))).
+  { destruct (seen || Qeq_bool (kk_ratio_q (x + g) (k_m k)) 0) eqn:Es; [now rewrite (Ez eq_refl)|reflexivity]. }
+  rewrite Ee, Eo. f_equal. exact (IH (kstep k x) _ Hok Ez).
 Qed.
+Lemma kk_terms_ok xs : forall k, kk_ok k xs ->
+  kk_terms_from n t' (fst k) false (Fin (snd k)) (map (fun x => x + g) xs) = map Fin (kTs k xs).
+Proof. intros k H. apply kk_terms_ok_z; auto. discriminate. Qed.
 
 Lemma kk_ok_null q : forall p r, KInv p (q ++ r) -> kk_ok (kfold p) q.
 Proof.
@@ -251,8 +262,10 @@ Proof.
   assert (Hxl : length xs = k) by (unfold xs; rewrite firstn_length; lia).
   unfold kaplan_kolmogorov in Hin. cbv zeta in Hin. cbn [fst snd] in Hin.
   change (map3 kk_override (map (fun x => x + g) xs) (mu_list (Some n) (t + g) (map (fun x => x + g) xs))
-            (xcumprod (Fin 1) (map2 kk_ratio (map (fun x => x + g) xs) (mu_list (Some n) (t + g) (map (fun x => x + g) xs)))))
-    with (kk_terms_from n t' (0, 1%Z) (Fin 1) (map (fun x => x + g) xs)) in Hin.
+            (absorb xis_zero (Fin 0) false
+                    (map2 kk_ratio (map (fun x => x + g) xs) (mu_list (Some n) (t + g) (map (fun x => x + g) xs)))
+                    (xcumprod (Fin 1) (map2 kk_ratio (map (fun x => x + g) xs) (mu_list (Some n) (t + g) (map (fun x => x + g) xs))))))
+    with (kk_terms_from n t' (0, 1%Z) false (Fin 1) (map (fun x => x + g) xs)) in Hin.
   rewrite ET in Hin. fold pvr in Hin.
   set (Ts := kTs kinit xs) in *.
   assert (Hlen : length Ts = length xs). { unfold Ts. generalize kinit. clear. induction xs; intro k0; simpl; auto. }
